@@ -46,6 +46,22 @@ Round 2 (seeded changes C18-5..7) added:
   * oracle clauses for units inside sequences (what a member receives, a member's own outgoing state after its
     solve) and for processors that run without their factory having been asked at this solve;
   * an exception raised from inside pyroll while solving is an oracle finding (`solve-raised`), not a crash.
+
+Round 3 (seeded change C18-9: the hand-over into a RE-USED out profile read the profile as the caller passed it) added:
+  * processors that hand back a NEW profile object in which they ADDED a value (`c18_add_<p>`), CHANGED one (`c18_val`)
+    or did not take the added ones over, next to the same done in place (`BEHS`); the harness-owned values (`owned`:
+    marks and every `c18_*` entry - no hook, no unit of pyroll computes them) are snapshotted at every processor call,
+    when the own solution starts (in profile; out profile BEFORE the own-solution mark is written), before the
+    post-processing, and at the end;
+  * oracle clauses from "the unit's incoming profile is what the last pre-processor returned" and what is derived from
+    it: in profile = last pre-processor output in EVERY owned value; the out profile when the own solution starts =
+    the same (first solve: new object; every later solve - second solve(), every round of an enclosing sequence -
+    re-used object); the out state before the post-processing = that + the own mark; the returned profile = last
+    pre-processor output, own mark, the post-processors of this solve; what the next member of a sequence receives and
+    what a member keeps, in every owned value (keys `out-profile-…`, `in-profile-…-value-…`,
+    `out-state-not-own-solution-on-last-pre-processor-output`, `returned-profile-…`);
+  * sequences inside sequences (12 % of the histories allow them; the members of the inner one are solved >= 4
+    times per solve of the outer one): not in the Lean model (one level) - such histories are checked by the oracle only.
 """
 import collections
 import inspect
@@ -63,8 +79,11 @@ RULE = ("random histories over real class hierarchies built with type() below Un
         "classes included: the bases and subclasses of BaseRollPass around the library's own auto-rotator registration) and with "
         "solves of leaf units and of sequences, re-solves of the same unit after its state (flag; rotation of a roll "
         "pass) changed included; 30% of the histories contain real two-roll passes (groove, roll, gap, real workpiece) "
-        "solved alone and as members of sequences; factories always/never/unit-state-dependent, processors "
-        "in-place/copying/identity. A case is non-trivial when some solve consulted >= 2 factories; distinct by the op lines.")
+        "solved alone and as members of sequences; 12% of the histories allow sequences as members of sequences "
+        "(oracle only); factories always/never/unit-state-dependent, processors in-place/new-object/identity, the "
+        "first two also adding, changing or dropping a value besides their mark (9 behaviours); about a quarter of "
+        "the solve calls re-use an existing out profile (second solve of a unit, later rounds of a sequence). "
+        "A case is non-trivial when some solve consulted >= 2 factories; distinct by the op lines.")
 TRUSTED_EXTRA = ["AST pattern matcher for the processor code (driver/translate/c18_procs.py) and the meaning given to its "
                  "instructions (lean/PyrollModel/ProcProg.lean: attribute lookup along the MRO, `yield from`, what a `None` "
                  "processor does to `p.solve`, public copy = new object with the same marks)"]
@@ -85,6 +104,10 @@ ASSUMPTIONS = [
     "does to the geometry is C14's business",
     "ThreeRollPass-derived and abstract classes take part in the class-level (walk) checks only; a sequence of the "
     "harness holds at most one real roll pass",
+    "the Lean model's profile state is the mark list: a processor that also adds / changes / drops another value is "
+    "`fresh` or `inplace` there; those values are checked by the oracle on the real objects and, for the re-use "
+    "branch of init_solve, by `refreshEntry` on the literals read from the source "
+    "(source_reuse_branch_hands_over_every_entry); sequences inside sequences are checked by the oracle only",
 ]
 
 NAMES = {"p": "pre_processors", "q": "post_processors"}
@@ -93,6 +116,51 @@ LIBNAMES = ["Unit", "PassSequence", "DiskElementUnit", "Transport", "Rotator",
 (C_UNIT, C_SEQ, C_DEU, C_TRANSPORT, C_ROTATOR, C_DEFU, C_BRP, C_SRP, C_TWO, C_THREE, C_COOL) = range(11)
 M0 = len(LIBNAMES)            # id of the first class a history defines
 LIBFAC0 = 900                 # factory / processor ids of the registrations the library itself makes
+
+
+# what a processor of the harness does with the profile it receives (op `beh p <letter>`).  Every behaviour except "s"
+# writes its mark (the value `marks` CHANGES); the upper-case ones work IN PLACE on the received object, the
+# lower-case ones (except "i", "s") return a NEW profile object holding the public entries of the received one - as
+# every real unit used as processor does (`Unit.solve` returns a fresh profile):
+#   i  in place: mark                      f  new object: mark                     s  returns what it got, untouched
+#   A  in place: mark + ADDS a value       a  new object: mark + ADDS a value      (attribute `c18_add_<p>`)
+#   C  in place: mark + CHANGES a value    c  new object: mark + CHANGES a value   (attribute `c18_val`, every workpiece has it)
+#   D  in place: mark + DROPS the added    d  new object: mark, the added values are not taken over
+# The Lean model's state is the marks: there a/c/d are `fresh`, A/C/D `inplace` (lean/PyrollModel/ProcDriver.lean: beh?).
+BEHS = "ifsaAcCdD"
+NEW_OBJECT_BEHS = "facd"
+ADD_PREFIX = "c18_add_"
+VAL_ATTR = "c18_val"
+
+
+def owned(o):
+    """the values of a profile object that belong to the harness (no unit of pyroll computes them, no hook has their
+    names): `marks` and every `c18_*` entry - as a sorted tuple of (name, value)"""
+    d = getattr(o, "__dict__", None) or {}
+    return tuple(sorted((k, v) for k, v in d.items() if k == "marks" or k.startswith("c18_")))
+
+
+def _short(v):
+    if isinstance(v, tuple) and v and all(isinstance(x, tuple) and len(x) == 2 for x in v):
+        return [t for t, _ in v]
+    return v
+
+
+def owned_diff(got, want):
+    """first difference between two `owned` snapshots: (kind, text), kind in marks / lacks / holds / value; or None"""
+    g, w = dict(got), dict(want)
+    if tuple(g.get("marks", ())) != tuple(w.get("marks", ())):
+        return "marks", f"carries the marks {_short(tuple(g.get('marks', ())))}, expected {_short(tuple(w.get('marks', ())))}"
+    for k in sorted(w):
+        if k not in g:
+            return "lacks", f"lacks the value `{k}` = {_short(w[k])}"
+    for k in sorted(g):
+        if k not in w:
+            return "holds", f"holds a value `{k}` = {_short(g[k])} that is not there"
+    for k in sorted(w):
+        if g[k] != w[k]:
+            return "value", f"has `{k}` = {_short(g[k])}, expected {_short(w[k])}"
+    return None
 
 
 class HarnessError(RuntimeError):
@@ -162,7 +230,8 @@ def _quiet():
 
 
 class Ev:
-    __slots__ = ("t", "kind", "w", "f", "p", "res", "recv", "ret", "recv_marks", "ret_marks", "unit_ok", "asked")
+    __slots__ = ("t", "kind", "w", "f", "p", "res", "recv", "ret", "recv_marks", "ret_marks", "unit_ok", "asked",
+                 "recv_attrs", "ret_attrs", "beh")
 
     def __init__(self, t, kind, **kw):
         self.t = t
@@ -179,6 +248,7 @@ class Rec:
         self.unit = unit
         self.inp = inp
         self.inp_marks = tuple(getattr(inp, "marks", ()))
+        self.inp_attrs = owned(inp)   # the harness-owned values (marks, c18_*) of the handed-in profile at entry
         self.is_seq = is_seq
         self.ev = []
         self.iters = 0
@@ -189,6 +259,16 @@ class Rec:
         self.ret = None
         self.ret_marks = None
         self.out_marks_at_leave = None
+        self.in_attrs_at_own = None       # harness-owned values of in_profile / out_profile when the own solution starts
+        self.out_attrs_at_own = None      # (the out profile BEFORE the harness writes the own-solution mark on it)
+        self.out_obj_at_own = None
+        self.own_mark = None              # the mark the own solution of THIS solve wrote on out_profile
+        self.out_attrs_before_post = None
+        self.ret_attrs = None
+        self.out_attrs_at_leave = None
+        self.parent_in_attrs = None
+        self.reused_out = False           # the unit had an out profile already when this solve was entered (re-solve)
+        self.depth = 0                    # nesting depth (0 = the solve the harness called)
         self.flag = None          # the unit's flag while this solve ran
         self.children = []        # records of the members solved inside this solve, in order
         self.parent_iter = None   # iteration of the enclosing solve in which this one ran
@@ -248,6 +328,7 @@ class Real:
         self.foreign_depth = 0    # > 0 while a library processor (a real unit) solves itself
         self.pending = []         # library factory calls entered and not yet returned: (code, argument)
         self.flag_changed = set() # units whose flag changed since their last solve
+        self.nested = False       # a sequence of this history has a sequence as member (not in the Lean model: oracle only)
         # registrations the LIBRARY itself made (the auto-rotator on BaseRollPass): part of the log, serial = scan order
         self.libfac = {}          # factory id -> the library's factory object
         self.libreg = []          # (w, class id, factory id)
@@ -380,10 +461,13 @@ class Real:
         uid = self.uid[id(unit)]
         rec = Rec(uid, unit, in_profile, self.useq[uid])
         rec.flag = self.uflag[uid]
+        rec.reused_out = unit.out_profile is not None
+        rec.depth = len(self.stack)
         if self.stack:
             parent = self.stack[-1]
             rec.parent_iter = parent.iters
             rec.parent_in_marks = tuple(getattr(parent.unit.in_profile, "marks", ()))
+            rec.parent_in_attrs = owned(parent.unit.in_profile)
             parent.children.append(rec)
         self.stack.append(rec)
         self.trace.append(f"E {uid} #{self.oid(in_profile)}")
@@ -393,8 +477,10 @@ class Real:
             self.stack.pop()
         rec.ret = ret
         rec.ret_marks = tuple(getattr(ret, "marks", ()))
+        rec.ret_attrs = owned(ret)
         ip, op = unit.in_profile, unit.out_profile
         rec.out_marks_at_leave = tuple(getattr(op, "marks", ()))
+        rec.out_attrs_at_leave = owned(op)
         self.flag_changed.discard(uid)
         self.trace.append(f"L {uid} #{self.oid(ret)} #{self.oid(ip)} #{self.oid(op)} "
                           f"{self.show_marks(ret)} {self.show_marks(ip)} {self.show_marks(op)}")
@@ -411,8 +497,12 @@ class Real:
         if rec.iters == 1:
             rec.in_obj_at_own = unit.in_profile
             rec.in_marks_at_own = tuple(unit.in_profile.marks)
+            rec.in_attrs_at_own = owned(unit.in_profile)
+            rec.out_obj_at_own = unit.out_profile
+            rec.out_attrs_at_own = owned(unit.out_profile)      # what init_solve handed over, before the own solution
             self.serial += 1
-            unit.out_profile.marks = tuple(unit.out_profile.marks) + ((f"o{rec.uid}", self.serial),)
+            rec.own_mark = (f"o{rec.uid}", self.serial)
+            unit.out_profile.marks = tuple(getattr(unit.out_profile, "marks", ())) + (rec.own_mark,)
         if rec.is_seq or rec.iters == 1:
             self.trace.append(f"O {rec.uid}")
 
@@ -424,6 +514,7 @@ class Real:
         if w == "q" and rec.out_obj_before_post is None:
             rec.out_obj_before_post = rec.unit.out_profile
             rec.out_marks_before_post = tuple(getattr(rec.unit.out_profile, "marks", ()))
+            rec.out_attrs_before_post = owned(rec.unit.out_profile)
 
     def on_factory(self, f, unit):
         if not self.stack:
@@ -498,6 +589,7 @@ class Real:
         asked = rec0 is rec and not used[0]
         used[0] = True
         recv_marks = tuple(getattr(profile, "marks", ()))
+        recv_attrs = owned(profile)
         self.foreign_depth += 1
         try:
             ret = orig(profile)
@@ -508,7 +600,8 @@ class Real:
         # instrumentation (like the own-solution mark): what the library's processor returned carries its mark
         ret.marks = tuple(getattr(ret, "marks", ())) + (mark,)
         rec.ev.append(Ev(self.tick(), "P", w=w, p=f, f=f, recv=profile, ret=ret, recv_marks=recv_marks,
-                         ret_marks=tuple(ret.marks), res=mark, asked=asked))
+                         ret_marks=tuple(ret.marks), res=mark, asked=asked, recv_attrs=recv_attrs,
+                         ret_attrs=owned(ret), beh="f"))
         self.trace.append(f"P {w} {f} #{self.oid(profile)} #{self.oid(ret)}")
         return ret
 
@@ -522,16 +615,27 @@ class Real:
         self.serial += 1
         mark = (f"p{proc.p}", self.serial)
         recv_marks = tuple(profile.marks)
-        if b == "i":
-            profile.marks = tuple(profile.marks) + (mark,)
+        recv_attrs = owned(profile)
+        if b == "s":
             ret = profile
-        elif b == "f":
-            ret = self.pr.Profile(**{k: v for k, v in profile.__dict__.items() if not k.startswith("_")})
-            ret.marks = tuple(profile.marks) + (mark,)
         else:
-            ret = profile
+            if b in NEW_OBJECT_BEHS:
+                # a NEW profile object, as every real unit returns one; "d": the added values are not taken over
+                ret = self.pr.Profile(**{k: v for k, v in profile.__dict__.items() if not k.startswith("_")
+                                         and not (b == "d" and k.startswith(ADD_PREFIX))})
+            else:
+                ret = profile
+                if b == "D":
+                    for k in [k for k in profile.__dict__ if k.startswith(ADD_PREFIX)]:
+                        delattr(profile, k)
+            ret.marks = tuple(profile.marks) + (mark,)
+            if b in "aA":
+                setattr(ret, f"{ADD_PREFIX}{proc.p}", ("added", proc.p, self.serial))
+            elif b in "cC":
+                setattr(ret, VAL_ATTR, ("changed", proc.p, self.serial))
         rec.ev.append(Ev(self.tick(), "P", w=w, p=proc.p, f=proc.consult.f, recv=profile, ret=ret, recv_marks=recv_marks,
-                         ret_marks=tuple(ret.marks), res=mark, asked=asked))
+                         ret_marks=tuple(ret.marks), res=mark, asked=asked, recv_attrs=recv_attrs,
+                         ret_attrs=owned(ret), beh=b))
         self.trace.append(f"P {w} {proc.p} #{self.oid(profile)} #{self.oid(ret)}")
         return ret
 
@@ -556,6 +660,8 @@ class Real:
             self.fid[id(factory)] = f
             return [(f"fac {f} {kind} {p}", "ok")]
         if n == "beh":
+            if op[2] not in BEHS:
+                raise HarnessError(f"harness: unknown processor behaviour {op[2]!r}")
             self.beh[op[1]] = op[2]
             return [(f"beh {op[1]} {op[2]}", "ok")]
         if n == "class":
@@ -620,9 +726,13 @@ class Real:
             _, c, flag, subs = op
             cls = self.classes[c]
             for s in subs:
-                if s in self.listed or self.useq[s]:
-                    raise HarnessError("harness: sequence member already listed / not a leaf")
-            if sum(1 for s in subs if self.is_rollpass_class(type(self.units[s]))) > 1:
+                if s in self.listed:
+                    raise HarnessError("harness: sequence member already listed")
+                if self.useq[s]:
+                    # a sequence as member of a sequence: the real recursion is the same Unit.solve; the Lean model
+                    # has one level of sequences, so such a history is checked by the oracle only
+                    self.nested = True
+            if sum(1 for s in subs for x in self.descendants(s) if self.is_rollpass_class(type(self.units[x]))) > 1:
                 raise HarnessError("harness: more than one roll pass in a sequence")
             kw = {"duration": 0}
             if _sub(cls, self.pr.Rotator):
@@ -635,13 +745,15 @@ class Real:
             # a real workpiece (the roll passes need geometry, temperature, flow stress), marks = what the processors write
             p = self.pr.Profile.round(diameter=30e-3, temperature=1400, material="steel", length=1, strain=0,
                                       flow_stress=50e6, marks=())
+            self.serial += 1
+            setattr(p, VAL_ATTR, ("initial", self.serial))      # a value the processors of kind c / C change
             self.named.append(p)
             self.named_deformed.append(False)
             return [("newprof", f"#{self.oid(p)}")]
         if n in ("solve", "solveseq"):
             _, u, k = op
             unit = self.units[u]
-            involved = [unit] + [self.units[m] for m in self.members.get(u, ())]
+            involved = [self.units[x] for x in self.descendants(u)]
             has_pass = any(self.is_rollpass_class(type(x)) for x in involved)
             if has_pass and self.named_deformed[k]:
                 raise HarnessError("harness: a roll pass is fed only with a workpiece of the fresh geometry")
@@ -691,6 +803,13 @@ class Real:
                 return [(f"solve {u} {k}", ";".join(self.trace))]
             return [(f"solveseq {u} {top.iters} {k}", ";".join(self.trace))]
         raise ValueError(op)
+
+    def descendants(self, u):
+        """the unit and everything solved inside it"""
+        out = [u]
+        for m in self.members.get(u, ()):
+            out += self.descendants(m)
+        return out
 
     def unit_kwargs(self, cls, flag):
         pr = self.pr
@@ -868,12 +987,12 @@ class Real:
                                   f"u{rec.uid}: processors {sorted((now - ran).elements())} did not run although their "
                                   f"factories return them for the unit's current state (flag={int(bool(rec.flag))})"))
         # threading of the pre-processors and the incoming profile
-        cur, cur_marks = rec.inp, rec.inp_marks
+        cur, cur_marks, cur_attrs = rec.inp, rec.inp_marks, rec.inp_attrs
         for e in (e for e in pre if e.kind == "P"):
             if e.recv is not cur:
                 probs.append(("pre-processor-input-not-predecessor-output",
                               f"u{rec.uid}: pre-processor {e.p} did not receive what its predecessor returned"))
-            cur, cur_marks = e.ret, e.ret_marks
+            cur, cur_marks, cur_attrs = e.ret, e.ret_marks, e.ret_attrs
         if rec.in_marks_at_own != cur_marks:
             probs.append(("in-profile-not-last-pre-processor-output",
                           f"u{rec.uid}: in_profile carries {[t for t, _ in rec.in_marks_at_own]}, the last pre-processor "
@@ -881,6 +1000,42 @@ class Real:
         ip = rec.in_obj_at_own
         if not isinstance(ip, self.pr.Unit.InProfile) or ip.unit is not unit or unit.in_profile is not ip:
             probs.append(("in-profile-not-own-object", f"u{rec.uid}: in_profile is not an InProfile of the unit"))
+        # "the unit's incoming profile is what the last pre-processor returned" - with EVERYTHING it returned: values a
+        # processor added or changed on a NEW profile object it handed back (as every real unit does) just as the ones
+        # written in place; and the unit's own solution starts from it: whatever the unit does not compute itself
+        # (the harness-owned values: no hook, no unit of pyroll knows them) is found on the unit's outgoing profile
+        # when the own solution begins - at the first solve (new out profile) and at EVERY later solve of the unit
+        # (re-used out profile: second solve(), every iteration of an enclosing sequence) alike
+        last = "the last pre-processor's output" if any(e.kind == "P" for e in pre) else \
+            "the profile handed to solve (no pre-processor ran)"
+        how = ("re-solve, out profile re-used" if rec.reused_out else "first solve") + \
+            (f", inside a sequence at depth {rec.depth}" if rec.depth else "")
+        d = owned_diff(rec.in_attrs_at_own, cur_attrs)
+        if d is not None and d[0] != "marks":
+            probs.append(({"lacks": "in-profile-lacks-value-of-last-pre-processor-output",
+                           "holds": "in-profile-holds-value-absent-from-last-pre-processor-output",
+                           "value": "in-profile-value-differs-from-last-pre-processor-output"}[d[0]],
+                          f"u{rec.uid} ({how}): in_profile {d[1]} in {last}"))
+        op0 = rec.out_obj_at_own
+        if not isinstance(op0, self.pr.Unit.OutProfile) or op0.unit is not unit:
+            probs.append(("out-profile-not-own-object", f"u{rec.uid}: out_profile is not an OutProfile of the unit"))
+        d = owned_diff(rec.out_attrs_at_own, cur_attrs)
+        if d is not None:
+            probs.append(({"marks": "out-profile-not-last-pre-processor-output",
+                           "lacks": "out-profile-lacks-value-of-last-pre-processor-output",
+                           "holds": "out-profile-holds-value-absent-from-last-pre-processor-output",
+                           "value": "out-profile-value-differs-from-last-pre-processor-output"}[d[0]],
+                          f"u{rec.uid} ({how}): when the own solution starts, out_profile {d[1]} as in {last}"))
+        # ... and nobody but the own solution writes there until the post-processing starts (members of a sequence and
+        # their processors included): the outgoing state then is the handed-over one plus the own solution's mark
+        want_out = tuple(sorted(dict(cur_attrs, marks=tuple(cur_marks) + (rec.own_mark,)).items()))
+        out_end = rec.out_attrs_before_post if rec.out_attrs_before_post is not None else rec.out_attrs_at_leave
+        if d is None:
+            d2 = owned_diff(out_end, want_out)
+            if d2 is not None:
+                probs.append(("out-state-not-own-solution-on-last-pre-processor-output",
+                              f"u{rec.uid} ({how}): after the own solution out_profile {d2[1]} "
+                              f"(= {last} + the own solution's mark)"))
         # post-processors
         pp = [e for e in post if e.kind == "P"]
         op = unit.out_profile
@@ -889,7 +1044,7 @@ class Real:
             if first.recv is op or first.recv is unit.in_profile:
                 probs.append(("post-processor-receives-unit-state",
                               f"u{rec.uid}: the first post-processor received the unit's own profile object"))
-            if first.recv_marks != rec.out_marks_before_post:
+            if first.recv_marks != rec.out_marks_before_post or first.recv_attrs != rec.out_attrs_before_post:
                 probs.append(("post-processor-input-not-out-state",
                               f"u{rec.uid}: the first post-processor did not receive a copy of the outgoing state"))
             cur = first.recv
@@ -905,16 +1060,33 @@ class Real:
                 probs.append(("returned-profile-is-out-state", f"u{rec.uid}: solve returned unit.out_profile itself"))
             mine = {e.res for e in pp}
             if op is not rec.out_obj_before_post or any(m in mine for m in op.marks) \
-                    or tuple(op.marks) != rec.out_marks_before_post:
+                    or tuple(op.marks) != rec.out_marks_before_post or owned(op) != rec.out_attrs_before_post:
                 probs.append(("post-processor-changed-out-state",
                               f"u{rec.uid}: unit.out_profile changed while the post-processors ran: "
                               f"{[t for t, _ in rec.out_marks_before_post]} -> {[t for t, _ in op.marks]}"))
             if any(m in mine for m in unit.in_profile.marks):
                 probs.append(("post-processor-changed-in-state", f"u{rec.uid}: unit.in_profile carries post marks"))
         else:
-            if tuple(rec.ret.marks) != tuple(op.marks):
+            if tuple(rec.ret.marks) != tuple(op.marks) or rec.ret_attrs != owned(op):
                 probs.append(("returned-profile-not-out-state",
                               f"u{rec.uid}: without post-processors the returned profile differs from out_profile"))
+        # the returned profile as a whole: the last pre-processor's output, then the own solution, then the
+        # post-processors that ran at this solve, in that order (marks are unique per invocation) - nothing of an
+        # earlier solve, nothing of the state before the pre-processors
+        want_ret = tuple(cur_marks) + (rec.own_mark,) + tuple(e.res for e in pp if e.beh != "s")
+        if tuple(rec.ret_marks) != want_ret:
+            probs.append(("returned-profile-not-pre-own-post",
+                          f"u{rec.uid} ({how}): the returned profile carries {[t for t, _ in rec.ret_marks]}, expected "
+                          f"{[t for t, _ in want_ret]} (= {last}, the own solution, the post-processors)"))
+        elif not any(e.beh in "aAcCdD" for e in pp):
+            # (post-processors that only write their mark: every other value is still the last pre-processor's)
+            d = owned_diff(tuple(kv for kv in rec.ret_attrs if kv[0] != "marks"),
+                           tuple(kv for kv in cur_attrs if kv[0] != "marks"))
+            if d is not None:
+                probs.append(({"lacks": "returned-profile-lacks-value-of-last-pre-processor-output",
+                               "holds": "returned-profile-holds-value-absent-from-last-pre-processor-output",
+                               "value": "returned-profile-value-differs-from-last-pre-processor-output"}[d[0]],
+                              f"u{rec.uid} ({how}): the returned profile {d[1]} in {last}"))
         # units solved INSIDE this one (members of a sequence): the same rules hold - what a member returns (the
         # output of its post-processors) is what its successor and the successor's pre-processors receive, and
         # nobody else's processors write into a member's own outgoing state
@@ -925,7 +1097,7 @@ class Real:
             prev = None
             for ch in group:
                 if prev is None:
-                    if ch.inp_marks != ch.parent_in_marks:
+                    if ch.inp_marks != ch.parent_in_marks or ch.inp_attrs != ch.parent_in_attrs:
                         probs.append(("sequence-first-member-input-not-in-profile",
                                       f"u{rec.uid}: its first member u{ch.uid} did not receive the sequence's incoming "
                                       f"profile (the output of the sequence's last pre-processor)"))
@@ -935,14 +1107,15 @@ class Real:
                                       f"u{rec.uid}: member u{ch.uid} was handed the own "
                                       f"{'out' if ch.inp is prev.unit.out_profile else 'in'}_profile object of its "
                                       f"predecessor u{prev.uid} instead of the profile that unit's solve returned"))
-                    if ch.inp_marks != prev.ret_marks:
+                    if ch.inp_marks != prev.ret_marks or ch.inp_attrs != prev.ret_attrs:
                         probs.append(("sequence-member-input-not-predecessor-return",
                                       f"u{rec.uid}: member u{ch.uid} received {[t for t, _ in ch.inp_marks]}, its "
                                       f"predecessor u{prev.uid} returned {[t for t, _ in prev.ret_marks]} (output of "
                                       f"its post-processors)"))
                 prev = ch
         for ch in last_iter:
-            if tuple(getattr(ch.unit.out_profile, "marks", ())) != ch.out_marks_at_leave:
+            if tuple(getattr(ch.unit.out_profile, "marks", ())) != ch.out_marks_at_leave \
+                    or owned(ch.unit.out_profile) != ch.out_attrs_at_leave:
                 probs.append(("member-out-state-changed-after-its-solve",
                               f"u{rec.uid}: out_profile of member u{ch.uid} carried "
                               f"{[t for t, _ in ch.out_marks_at_leave]} when its solve returned and "
@@ -1003,9 +1176,13 @@ def gen_and_run(rng, n_ops, malformed, counter=None):
             kind = rng.choice(["always", "always", "always", "never", "flag"])
             p = 50 + f
             do(("fac", f, kind, p))
-            do(("beh", p, rng.choice("iffs")))
+            # in place / new object / untouched; new-object and in-place processors that also add, change or drop a value
+            do(("beh", p, rng.choice("iiifffssaacdACDa")))
         do(("newprof",))
         unit_roots = [C_UNIT, C_UNIT, C_UNIT, C_TRANSPORT, C_ROTATOR, C_DEU, C_DEFU, C_THREE, C_COOL]
+        # sequences inside sequences (every member of the inner one is solved at least twice per iteration of the
+        # outer one): not in the Lean model, such a history is checked by the oracle only
+        allow_nested = rng.random() < 0.12
         if rng.random() < 0.3:
             # a history with real (solvable) roll passes: they cost ~10 ms per solve, the synthetic units ~1 ms
             unit_roots += [C_TWO, C_TWO, C_TWO, C_TWO]
@@ -1135,7 +1312,7 @@ def gen_and_run(rng, n_ops, malformed, counter=None):
                     s = rng.choice(seqs)
                     cnt("solve:seq-again")
                     if rng.random() < 0.5:
-                        toggle(rng.choice(real.members[s] + [s]))
+                        toggle(rng.choice(real.descendants(s)))
                 elif seqcls and leafcls:
                     subs = []
                     plain = [c for c in leafcls if c not in passcls]
@@ -1150,11 +1327,19 @@ def gen_and_run(rng, n_ops, malformed, counter=None):
                             continue
                         do(("unit", c, int(rng.random() < 0.5)))
                         subs.append(len(real.units) - 1)
+                    inner = [u for u in seqs if u not in real.listed]
+                    if allow_nested and inner and rng.random() < 0.6:
+                        u_in = rng.choice(inner)
+                        n_pass = sum(1 for x in subs + real.descendants(u_in)
+                                     if real.is_rollpass_class(type(real.units[x])))
+                        if n_pass <= 1:
+                            subs.insert(rng.randrange(len(subs) + 1), u_in)
+                            cnt("seq:nested")
                     do(("seq", pick_class(seqcls), int(rng.random() < 0.5), subs))
                     s = len(real.units) - 1
                 else:
                     continue
-                if any(real.is_rollpass_class(type(real.units[m])) for m in real.members[s]):
+                if any(real.is_rollpass_class(type(real.units[m])) for m in real.descendants(s)):
                     k = fresh_profile()
                     cnt("solve:seq-with-roll-pass")
                 else:
@@ -1298,6 +1483,33 @@ CORPUS = [_lib5(h) for h in [
         ("unit", M0, 0), ("solve", 1, 0),
         ("unit", M0 + 3, 0), ("unit", M0, 1), ("unit", M0 + 3, 1), ("seq", M0 + 2, 0, [2, 3, 4]), ("solveseq", 5, 0),
         ("setflag", 3, 0), ("solveseq", 5, 0)],
+    # pre-processors that hand back a NEW profile object in which they ADDED (a) or CHANGED (c) a value, next to ones
+    # working in place (A) and a factory returning nothing; one that does not take the added values over (d); the unit
+    # solved once, AGAIN on the same workpiece, on what it returned itself, on a new workpiece: in_profile, the re-used
+    # out profile and the returned profile come from the last pre-processor's output of THAT solve
+    # (`out_profile_is_last_pre_output`, `resolve_out_profile_is_last_pre_output` in PyrollProps/C18.lean)
+    _facs([("always", "a"), ("always", "c"), ("always", "A"), ("never", "i"), ("always", "d"), ("always", "f")]) + [
+        ("class", [C_UNIT], "a", False), ("class", [M0], "a", False), ("class", [C_UNIT], "a", False),
+        ("reg", "p", M0, 0), ("reg", "p", M0, 3), ("reg", "p", M0 + 1, 1), ("reg", "q", M0, 2), ("reg", "q", M0 + 1, 5),
+        ("reg", "p", M0 + 2, 0), ("reg", "p", M0 + 2, 4), ("reg", "p", M0 + 2, 1), ("reg", "q", M0 + 2, 0),
+        ("unit", M0 + 1, 0), ("solve", 0, 0), ("solve", 0, 0), ("solve", 0, 1), ("newprof",), ("solve", 0, 4),
+        ("unit", M0 + 2, 0), ("solve", 1, 2), ("solve", 1, 5), ("solve", 1, 0)],
+    # the same inside a sequence (its loop solves every member at least twice: each member's out profile is re-used
+    # from the second round on), the sequence having such a pre-processor itself; solved again with another workpiece
+    # and after a member's state changed
+    _facs([("always", "a"), ("always", "c"), ("always", "i"), ("always", "f"), ("flag", "a")]) + [
+        ("class", [C_UNIT], "a", False), ("class", [C_TRANSPORT], "a", False), ("class", [C_SEQ], "a", False),
+        ("reg", "p", M0, 0), ("reg", "q", M0, 3), ("reg", "p", M0 + 1, 1), ("reg", "p", M0 + 1, 4),
+        ("reg", "q", M0 + 1, 2), ("reg", "p", M0 + 2, 0),
+        ("unit", M0, 0), ("unit", M0 + 1, 1), ("unit", M0, 0), ("seq", M0 + 2, 0, [0, 1, 2]), ("solveseq", 3, 0),
+        ("newprof",), ("solveseq", 3, 2), ("setflag", 1, 0), ("solveseq", 3, 1)],
+    # a sequence inside a sequence (oracle only: the model has one level): the inner sequence is solved twice per round
+    # of the outer one and solves its members twice each time; then the inner one alone
+    _facs([("always", "a"), ("always", "c"), ("always", "f"), ("always", "A")]) + [
+        ("class", [C_UNIT], "a", False), ("class", [C_SEQ], "a", False), ("class", [C_SEQ], "a", False),
+        ("reg", "p", M0, 0), ("reg", "q", M0, 1), ("reg", "p", M0 + 1, 2), ("reg", "q", M0 + 1, 3), ("reg", "p", M0 + 2, 1),
+        ("unit", M0, 0), ("unit", M0, 0), ("seq", M0 + 1, 0, [0, 1]), ("unit", M0, 0), ("seq", M0 + 2, 0, [2, 3]),
+        ("solveseq", 4, 0), ("solveseq", 4, 1), ("solveseq", 2, 0)],
 ]
 
 
@@ -1440,10 +1652,19 @@ def _digest(ctx, ops, pairs, real, stream, reported):
             ctx.count(f"seq:iterations={r.iters}")
         if r.later:
             ctx.count("solve:class-defined-after-applicable-registration")
+        if r.reused_out:
+            ctx.count("solve:out-profile-re-used" + ("-inside-sequence" if r.depth else ""))
+            if any(e.kind == "P" and e.w == "p" and e.beh in NEW_OBJECT_BEHS for e in r.ev):
+                ctx.count("solve:out-profile-re-used-after-new-object-pre-processor")
+        if r.depth >= 2:
+            ctx.count("solve:inside-nested-sequence")
         if r.sibling:
             ctx.count("solve:registrations-on-sibling-class-exist")
     for b in real.beh.values():
-        ctx.count("processor:" + {"i": "in-place", "f": "copy", "s": "identity"}[b])
+        ctx.count("processor:" + {"i": "in-place", "f": "copy", "s": "identity", "a": "new-object-adds-value",
+                                  "c": "new-object-changes-value", "d": "new-object-drops-values",
+                                  "A": "in-place-adds-value", "C": "in-place-changes-value",
+                                  "D": "in-place-drops-values"}[b])
     depth = max((len(real.tail_of(c)) for c in real.classes), default=0)
     ctx.count(f"hierarchy:max-mro-length={depth + 1}")
     if len(ctx.samples) < 3 and nontrivial and stream == "cooperative":
@@ -1500,21 +1721,27 @@ def run(ctx):
     import gc
     check_library(ctx)
     check_generated(ctx)
-    n_cases = ctx.budget(1500, 17000)      # (thorough: ~11 min; 20000 took 12.8 min with the real roll passes of round 2)
+    n_cases = ctx.budget(1500, 15000)      # (thorough: 17000 took 11.6 min on a loaded machine with the nested sequences of
+    #                                          round 3, 20000 took 12.8 min with the real roll passes of round 2)
     use_model = getattr(ctx, "model_available", True)
     reported = set()
     state = {"n": 0}
     cases = []                      # (ops, lines, expected outputs) of the current batch
     for ops in CORPUS:
         pairs, real, _ = execute(ops)
-        cases.append((ops,) + _digest(ctx, ops, pairs, real, "corpus", reported))
+        case = (ops,) + _digest(ctx, ops, pairs, real, "corpus", reported)
+        if not real.nested:                 # (a sequence inside a sequence is not in the Lean model: oracle only)
+            cases.append(case)
     for i in range(n_cases):
         malformed = ctx.rng.random() < 0.15
         n_ops = ctx.rng.randrange(14, 34 if ctx.tier == "quick" else 48)
         ops, pairs, real = gen_and_run(ctx.rng, n_ops, malformed, ctx.count)
         case = (ops,) + _digest(ctx, ops, pairs, real, "malformed" if malformed else "cooperative", reported)
+        nested = real.nested
         del real, pairs
-        if use_model:
+        if nested:
+            ctx.count("stream:nested-sequences-oracle-only")
+        elif use_model:
             cases.append(case)
         if i % 50 == 49:
             gc.collect()
